@@ -80,6 +80,9 @@ pub impl Vec<SpeedLimitPoint> {
                 idx_end -= 1;
             }
 
+            // Speed in effect at the end offset before this speed limit is applied
+            let speed_end_old = self[idx_end].speed_limit;
+
             // If the speed starts at an offset not already in speeds
             if speed_limit.offset_start < self[idx_start].offset {
                 let speed_old = self[idx_start - 1].speed_limit;
@@ -101,7 +104,7 @@ pub impl Vec<SpeedLimitPoint> {
 
             // If the old speed does not end at offset end
             if self[idx_end].offset < speed_limit.offset_end {
-                let speed_old = self[idx_end].speed_limit;
+                let speed_old = speed_end_old;
 
                 // If the speed is different, insert the old speed at offset end
                 if speed_old != min_speed(speed_old, speed_limit.speed) {
